@@ -27,6 +27,7 @@ var (
 	Families  = []string{"f1", "f2", "f3"}
 	Gens      = []string{"1", "2", "3", "5"}
 	TierKey   = "ex.io/tier"
+	RankKey   = "ex.io/rank" // integer-valued user label
 	TeamKey   = "team"
 	GPU       = "ex.io/gpu"
 	cpuLat    = []string{"1", "2", "4", "8", "16"}
@@ -74,6 +75,7 @@ type Knobs struct {
 	SingleTerm    bool // at most one required node-affinity term (no OR alternatives)
 	FriendlyPools bool // fewer taints / requirements so that several pools can host a pod
 	EasyPods      bool // mostly small pods with few selectors
+	CustomKeyHeavy  bool // pools use many operators on user-defined label keys
 	MoreInitialized bool // bias existing nodes to initialized, healthy, managed ones (disruption worlds)
 }
 
@@ -250,6 +252,22 @@ func Pool(t *rapid.T, i int, k Knobs) *v1.NodePool {
 		reqs = append(reqs, r)
 	}
 	labels := map[string]string{}
+	if k.CustomKeyHeavy && pct(t, 60, l+"_rank") {
+		switch rapid.IntRange(0, 5).Draw(t, l+"_rankOp") {
+		case 0:
+			reqs = append(reqs, req(RankKey, corev1.NodeSelectorOpGt, pick(t, []string{"0", "1", "3"}, l+"_rankGt")))
+		case 1:
+			reqs = append(reqs, req(RankKey, corev1.NodeSelectorOpLt, pick(t, []string{"0", "1", "4", "6"}, l+"_rankLt")))
+		case 2:
+			reqs = append(reqs, req(RankKey, corev1.NodeSelectorOpGt, "1"), req(RankKey, corev1.NodeSelectorOpLt, "6"))
+		case 3:
+			reqs = append(reqs, req(RankKey, corev1.NodeSelectorOpNotIn, "3", "4"), req(RankKey, corev1.NodeSelectorOpLt, "6"))
+		case 4:
+			reqs = append(reqs, req(RankKey, corev1.NodeSelectorOpNotIn, "3"))
+		default:
+			reqs = append(reqs, req(RankKey, corev1.NodeSelectorOpIn, "1", "2", "5"))
+		}
+	}
 	switch rapid.IntRange(0, 5).Draw(t, l+"_tier") {
 	case 0:
 		reqs = append(reqs, req(TierKey, corev1.NodeSelectorOpIn, subset(t, []string{"a", "b", "c"}, 1, l+"_tiers")...))
@@ -338,7 +356,7 @@ func selectorExpr(t *rapid.T, l string) corev1.NodeSelectorRequirement {
 		{v1.CapacityTypeLabelKey, CTs, false}, {corev1.LabelArchStable, Archs, false},
 		{sim.LabelFamily, Families, false}, {sim.LabelGen, Gens, true},
 		{corev1.LabelInstanceTypeStable, []string{"t0", "t1", "t2", "t3"}, false},
-		{TierKey, []string{"a", "b", "c"}, false}, {TeamKey, []string{"x", "y"}, false},
+		{TierKey, []string{"a", "b", "c"}, false}, {TeamKey, []string{"x", "y"}, false}, {RankKey, []string{"1", "2", "3", "4", "5"}, true},
 		{corev1.LabelOSStable, []string{"linux", "windows"}, false},
 	}, l+"_key")
 	ops := []corev1.NodeSelectorOperator{corev1.NodeSelectorOpIn, corev1.NodeSelectorOpIn, corev1.NodeSelectorOpIn, corev1.NodeSelectorOpNotIn, corev1.NodeSelectorOpExists, corev1.NodeSelectorOpDoesNotExist}
